@@ -51,6 +51,7 @@ CONSTANTS
   FIXWRAP = {fixwrap}
   FIXHOPS = TRUE
   FIXOHEXP = TRUE
+  FIXOHSEC = TRUE
   XorAcc <- SymXor
   MAXLEN = {maxlen}
   ALLCH = {allch}
@@ -69,6 +70,7 @@ CONSTANTS
   FIXWRAP = TRUE
   FIXHOPS = TRUE
   FIXOHEXP = TRUE
+  FIXOHSEC = TRUE
   XorAcc <- SymXor
   MINLEN = 2
   MAXLEN = {maxlen}
@@ -86,6 +88,8 @@ def cfg(c, name, text):
 
 
 def cell_key(cell):
+    if cell.get("kind") == "double":
+        return "double-flips %s" % "".join(("c" if p["cd"] else "r") + str(p["n"]) for p in cell["pieces"])
     if cell.get("kind") == "walk":
         return "walk %s tamper %s@%s" % ("".join(("c" if p["cd"] else "r") + str(p["n"]) for p in cell["pieces"]),
                                         cell["tamper"]["f"], cell["tamper"]["at"])
@@ -105,7 +109,10 @@ def replay_cases(c, binp, cases, tag):
         for line, case in zip(f, cases):
             res = json.loads(line)
             st["cases"] += 1
-            if case.get("kind") == "walk":
+            if case.get("kind") == "double":
+                st["double_flip_pairs"] = st.get("double_flip_pairs", 0) + res.get("flips", 0)
+                st["nontrivial"] += 1
+            elif case.get("kind") == "walk":
                 st["walks"] += 1
                 st["flips"] += res.get("flips", 0)
                 st["nontrivial"] += 1 if (len(case["pieces"]) > 1 or case["tamper"]["f"] != "none") else 0
@@ -237,7 +244,7 @@ def run(c):
     for d in cells:
         d["kind"] = "cell"
     rs = c.tlc(SD, "MC_PathAdvance", cfg=cfg(c, "adv_seq.cfg", ADV_TMPL.format(
-        chmod=64, fixwrap="TRUE", maxlen=3 if thorough else 2, allch="FALSE", depth=3, gen="FALSE", als=BOTH)), timeout=6000, coverage=False)
+        chmod=64, fixwrap="TRUE", maxlen=3 if thorough else 2, allch="FALSE", depth=3 if thorough else 2, gen="FALSE", als=BOTH)), timeout=6000, coverage=False)
     for inv in rs.violated:
         c.violation("spec:%s:sequences" % inv, "design-level: %s violated on call sequences; see %s" % (inv, rs.out_path), {"tlc_out": rs.out_path})
     r0 = c.tlc(SD, "MC_PathAdvance", cfg=cfg(c, "adv_wrap.cfg", ADV_TMPL.format(
@@ -268,7 +275,12 @@ def run(c):
     c.cov["exhaustive"] = True
 
     # ---- 3. replay -----------------------------------------------------------------------------------------
-    st = replay_cases(c, binp, cells + walks, "all")
+    # every PAIR of authenticated bits of a few small authentic paths (harness-side enumeration)
+    P = lambda n, cd: {"n": n, "cd": cd}
+    doubles = [{"kind": "double", "pieces": [P(2, True), P(2, False)]}, {"kind": "double", "pieces": [P(3, False)]}]
+    if thorough:
+        doubles += [{"kind": "double", "pieces": [P(2, False), P(2, True), P(2, True)]}, {"kind": "double", "pieces": [P(3, True), P(2, False)]}]
+    st = replay_cases(c, binp, cells + walks + doubles, "all")
     need = ["ing_int:ok:egress", "ing_int:ok:local", "ing_ext:ok:egress", "ing_ext:ok:local", "egr:ok:egress",
             "egr:err:final_hop", "egr:err:segment_end", "ing_ext:err:single_hop_segment", "ing_ext:err:segment_mismatch",
             "ing_ext:err:hop_oob", "ing_ext:err:info_oob", "walk:authentic", "walk:tamper-mac", "walk:tamper-sid", "walk:tamper-ts"]
@@ -279,7 +291,7 @@ def run(c):
         c.fail_tool("vacuous replay: no bit flips walked")
     c.cov["replayed"] = st["cases"]
     c.cov["replay_conformance_mismatches"] = st["mismatch"]
-    c.cov["evaluations"] = len(cells) * 12 + st["flips"] + st["walks"]
+    c.cov["evaluations"] = len(cells) * 12 + st["flips"] + st["walks"] + st.get("double_flip_pairs", 0)
     c.cov["distinct_nontrivial"] = st["nontrivial"]
     c.cov["replay_stats"] = st
     mid = cells[len(cells) // 2]
